@@ -81,7 +81,7 @@ def run(ctx):
     mon = monitors.Monitors(ctx, F)
     mon.attach_stats()
     path = os.path.join(ctx.tmpdir, 'c12.fcs')
-    n = 140 if ctx.tier == 'quick' else 3500
+    n = 140 if ctx.tier == 'quick' else 8000
     nmax = 400 if ctx.tier == 'quick' else 3000
     for cid, rng in ctx.cases([('s', i) for i in range(n)]):
         mon.cid = cid
@@ -146,4 +146,7 @@ def run(ctx):
                     bool(np.all(np.abs(np.asarray(v['gcv'].value) - np.sqrt(np.exp(np.log(g) ** 2) - 1)) < 1e-7))
                 ctx.counters['chk:identity'] += 1
                 ctx.check(ok, 'identity:gcv', cid, container=cname, dtype=str(s.dtype), gstd=g, gcv=v['gcv'].value)
+    # the repository's own tests as a workload under the same monitors (their assertions are not the oracle)
+    from rv import suite_workload
+    suite_workload.run_repo_suite(ctx, mon, modules=('test_stats.py',))
     mon.detach()
